@@ -45,8 +45,8 @@ EXPLANATION = (
     "seen-up-to-k ++ subscribe(k) = uninterrupted stream (spec and machine level); memory and SQLite machines in "
     "lockstep in process, and the same final stream when polls expire; query_events agreement; 'now' carries exactly "
     "what is published later; 204 withholds nothing; SSE ids are the sequences, increasing, resumable through the "
-    "internal-event filter. Tie: names, statuses, events DDL and statement skeletons of the ten functions regenerated "
-    "from /repo (C16_source_shape); op-by-op correspondence of the model driver with the real MemoryWorkflowStore, "
+    "internal-event filter. Tie: names, statuses, events DDL, statement skeletons of the nine store / resolution functions, the cursor part "
+    "of _stream_events and its frame formats regenerated from /repo (C16_source_shape); op-by-op correspondence of the model driver with the real MemoryWorkflowStore, "
     "SqliteWorkflowStore (both connection modes), the polling default AbstractWorkflowStore.subscribe_events and the "
     "real _WorkflowAPI._stream_events coroutine (fake Request, name-only starlette shim) under a virtual-time, "
     "run-to-quiescence scheduler. Search: monitors on the real stores' outputs (consecutive, exact content, "
@@ -1158,6 +1158,16 @@ def check_case(I: dict, case: dict, out: Outcome, batches: dict[str, list], api_
         outs[leg], recs[leg] = o, rec
         batches.setdefault(BACKEND_OF[leg], []).append((leg, case, lines, o))
         out.evaluations += len(ops)
+        if leg == "mem":
+            for r in rec.subs:
+                out.count("subscriber:" + ("cancelled" if r["cancelled"] else "ended-after-terminal" if r["ended"] else
+                                           "waiting-at-end" if r["out"] else "never-received"))
+                out.count("subscriber-items", len(r["out"]))
+            for r in rec.apis:
+                out.count("endpoint-stream:" + ("sse" if r["sse"] else "ndjson"))
+                out.count("endpoint-frames", len(r["out"]))
+            for r in rec.https:
+                out.count(f"endpoint-http-{r['code']}")
         if kind != "trim":
             vs += monitor_store(I, leg, case, rec, drained=True)
             if kind == "api":
